@@ -1,6 +1,6 @@
 """C13 Both stores behave as isolated per-agent, per-item value/map storage."""
 from mirlib import AnchorMissing, describe_call, describe_operand, describe_place, describe_rvalue, dom_guards, guards, decision_paths, _suffix_match
-from rules.common import aggregates, callers_by_name, owner_def, where
+from rules.common import named_argument_rule, aggregates, callers_by_name, owner_def, where
 
 META = {
     "explanation": (
@@ -177,6 +177,9 @@ def run(ctx):
                 "names are stored as 'lane/<name>' (template %s, LANE_PREFIX = %s): they cannot collide with the counter key" % (p2, lp), "format_key template %s / LANE_PREFIX %s" % (p2, lp))
         ck = [v.get("str") for k, v in rs.consts.items() if k.endswith("COUNTER_KEY")]
         r.check(bool(ck) and not (ck[0] or "").startswith("lane/"), "COUNTER_KEY/outside-name-prefix", "-", "counter key %r is outside the 'lane/' name space" % (ck[0] if ck else None))
+
+    with ctx.rule("C13.R8", "T5", "named arguments are passed in their parameters' positions (no two flags or ids change places at a call site)", floor=5) as r:
+        named_argument_rule(ctx, r, [("swimos_rocks_store", "swimos_rocks_store::"), ("swimos_server_app", "in_memory_store")], allow={})
 
 
 def _format_pieces(body):
